@@ -25,10 +25,26 @@ var flatTokens = func() []string {
 		}
 		t = append(t, "k:"+k.Name, "kv:"+k.Name)
 	}
+	for i := range oddIDs {
+		t = append(t, fmt.Sprintf("oddid:%d", i))
+	}
 	return t
 }()
 
+// ids that are not well-formed absolute URLs: the statement says "has an id", not "has an id that parses"
+var oddIDs = []string{"https://example.com/notes/100%-done", "https://example.com/%zz", "https://example.com/a\tb", "2024:notes/1", "example-actor-iri", "urn:uuid:6e8bc430-9c3a-11d9-9669-0800200c9a66",
+	"acct:user@example.com", "#local", "//host/path", "https://example.com/sp ace", "HTTPS://EXAMPLE.COM/UP", "https://[::1]/v6", "https://example.com/ü", "https://example.com/a?b=%"}
+
 func flatItem(tok string, n int) vocab.Item {
+	if strings.HasPrefix(tok, "oddid:") {
+		var i int
+		fmt.Sscanf(tok[6:], "%d", &i)
+		oid := vocab.IRI(fmt.Sprintf("%s%d", oddIDs[i], n))
+		if i%2 == 0 {
+			return &vocab.Object{ID: oid, Type: vocab.NoteType, Name: vocab.NaturalLanguageValues{{Ref: vocab.NilLangRef, Value: vocab.Content("odd id")}}}
+		}
+		return vocab.Actor{ID: oid, Type: vocab.PersonType}
+	}
 	id := vocab.IRI(fmt.Sprintf("https://example.com/flat/%s/%d", tok, n))
 	if strings.HasPrefix(tok, "k:") || strings.HasPrefix(tok, "kv:") {
 		k := vmodel.Kinds[vmodel.KindIndex(tok[strings.IndexByte(tok, ':')+1:])]
@@ -431,11 +447,14 @@ var flatListTokensWide = func() []string {
 		}
 		t = append(t, "k:"+k.Name)
 	}
+	for i := range oddIDs {
+		t = append(t, fmt.Sprintf("oddid:%d", i))
+	}
 	return t
 }()
 
 func flatListItem(tok string) vocab.Item {
-	if strings.HasPrefix(tok, "k:") {
+	if strings.HasPrefix(tok, "k:") || strings.HasPrefix(tok, "oddid:") {
 		return flatItem(tok, 7)
 	}
 	switch tok {
